@@ -66,6 +66,15 @@ def _real_env():
         def __ge__(self, o): return SCond(self.e >= SReal.lift(o))
         def __lt__(self, o): return SCond(self.e < SReal.lift(o))
         def __format__(self, spec): return '<real>'
+        def __bool__(self):
+            # truthiness of a double (`if not x:`): decided by the solver when the case fixes it, otherwise the harness must split the case
+            zero = str(R.fresh(self.e == 0).check())
+            nonzero = str(R.fresh(self.e != 0).check())
+            if zero == 'sat' and nonzero == 'unsat':
+                return False
+            if zero == 'unsat' and nonzero == 'sat':
+                return True
+            raise symx.Unsupported('truthiness of a symbolic double that may or may not be zero')
 
     class SText:
         """the captured time-stamp text: denotes exactly A/1000 ms (A an integer number of microseconds), with '.' or ','"""
@@ -109,10 +118,13 @@ def arithmetic(case):
     t0 = time.time()
     z3, R, SReal, SCond, SText, sym_float = _real_env()
     A, B, P, C = z3.Ints('A B P C')
-    if case == 'shift':
-        R.s.add(B >= 0, A >= B, P == B, C >= 0, A + C < 2 ** 32)
+    if case == 'zero-base':
+        B = z3.IntVal(0)          # a log whose first time stamp is exactly 0.000
+        R.s.add(P >= 1, A >= P, A < 2 ** 32, C == 0)
+    elif case == 'shift':
+        R.s.add(B >= 1, A >= B, P == B, C >= 0, A + C < 2 ** 32)
     else:
-        R.s.add(B >= 0, P >= B, A >= P, A < 2 ** 32, C == 0)
+        R.s.add(B >= 1, P >= B, A >= P, A < 2 ** 32, C == 0)      # B = 0 is the separate case zero-base
     saved = wl.Message.base_time
     res = {'paths': 0, 'queries': 0, 'checks': 0, 'samples': []}
     try:
@@ -171,7 +183,7 @@ def arithmetic(case):
             res['paths'] += 1
             if r == 'sat':
                 m = sv.model()
-                cex = {k: m.eval(v, model_completion=True).as_long() for k, v in (('A', A), ('B', B), ('P', P), ('C', C))}
+                cex = {k: (m.eval(v, model_completion=True).as_long() if not isinstance(v, int) else v) for k, v in (('A', A), ('B', B), ('P', P), ('C', C))}
                 cex['query'] = tag
                 res.update(status='cex', failed=name, cex=cex)
                 return res
@@ -320,7 +332,7 @@ def obligations(tier):
                 cases.append((gaps, la))
     return [
         Ob('time-arithmetic', 'smt', 'accuracy, shift invariance, separator threshold on the real message()/Message.__init__/_show_message with proxy doubles', FUNCS[:3],
-           'A, B, P, C integer microsecond counts below 2^32 us (the range of libwayland\'s counter)', arithmetic, cases=['base', 'shift'], replay=replay_arith,
+           'A, B, P, C integer microsecond counts below 2^32 us (the range of libwayland\'s counter)', arithmetic, cases=['base', 'shift', 'zero-base'], replay=replay_arith,
            stubs=['float() re-bound in a copy of parse.message to the symbolic conversion', 'WlPatterns replaced by a fake whose timestamp group denotes A/1000 exactly'],
            outside='gaps of exactly 1.000000 s +- 1 us; str.format'),
         Ob('shown-gap-state-machine', 'symx', 'the gap is between consecutively shown messages: live view with symbolic filter verdicts, optional listing in between', FUNCS[2:],
